@@ -330,6 +330,42 @@ def run(ctx):
                               construct=f"{REAL}:{c.name}.{mname}::test.{n.attr}")
     ctx.floor("R-TEST-PROTOCOL", 4, "attribute uses on test objects")
 
+    # ------------------------------------------------------------------ presence of err / details is decided by nullness
+    ctx.rule("R-PRESENCE-BY-NULLNESS", "whether err / details was supplied is decided with `is None`, never by truthiness")
+    n_presence = 0
+    for c in classes.all:
+        if c.external or c.module.name != REAL:
+            continue
+        for mname, f in c.methods.items():
+            pn = {a.arg for a in f.args.args} & {"err", "details"}
+            if not pn:
+                continue
+            for n in walk_shallow(f, include_self=False):
+                tests = []
+                if isinstance(n, (ast.If, ast.While, ast.IfExp)):
+                    tests.append(n.test)
+                elif isinstance(n, ast.BoolOp):
+                    tests.extend(n.values[:-1] if not isinstance(getattr(n, "_parent", None), (ast.If, ast.While, ast.IfExp)) else [])
+                elif isinstance(n, ast.UnaryOp) and isinstance(n.op, ast.Not):
+                    tests.append(n.operand)
+                elif isinstance(n, ast.Call) and dotted(n.func) == "bool" and n.args:
+                    tests.append(n.args[0])
+                for t in tests:
+                    parts = t.values if isinstance(t, ast.BoolOp) else [t]
+                    for p_ in parts:
+                        if isinstance(p_, ast.UnaryOp) and isinstance(p_.op, ast.Not):
+                            p_ = p_.operand
+                        if isinstance(p_, ast.Name) and p_.id in pn:
+                            n_presence += 1
+                            ctx.check("R-PRESENCE-BY-NULLNESS", f"{c.name}.{mname}: truthiness test of `{p_.id}`", p_, False,
+                                      f"{c.name}.{mname} decides whether `{p_.id}` was supplied by truthiness: a supplied but falsy value (an empty details dict, an empty "
+                                      "reason passed as err) is treated as absent -- the call raises or converts the wrong representation and the outcome is not delivered as given",
+                                      construct=f"{REAL}:{c.name}.{mname}::truthiness of {p_.id}")
+            nulls = [x for x in walk_shallow(f, include_self=False) if isinstance(x, ast.Compare) and isinstance(x.ops[0], (ast.Is, ast.IsNot)) and dotted(x.left) in pn]
+            for x in nulls:
+                ctx.check("R-PRESENCE-BY-NULLNESS", f"{c.name}.{mname}: `{norm(x)}`", x, True)
+    ctx.floor("R-PRESENCE-BY-NULLNESS", 16, "presence tests")
+
     # ------------------------------------------------------------------ R-TBT-CALLBACK
     tbt = classes.get(REAL, "TestByTestResult")
     callers = []
